@@ -18,7 +18,7 @@ EXPLANATION = (
     "routine decrements it. (BREAK) the separator decision is compared with its specification as a 16-row truth table "
     "and is consulted before every match / before-context line. (ORDERING/WINDOW) after-context, then before-context, "
     "then the match; before-context starts at the last visited line. Which lines fall inside windows and true line "
-    "numbers are arithmetic over the input and are not decided.")
+    "numbers are arithmetic over the input and are not decided. (STOPNM) under --stop-on-nonmatch, once a line matched the fast path is neither admitted nor continued and the slow path returns stop at the first non-matching line; has_matched is recorded before every delivered match. (LIVE) dual of the stop discipline: assuming every callee and the sink say keep going (whole-function propagation with a call model), a routine returns its stop value only on a path guarded by a listed reason.")
 NOT_DECIDED = ["which lines fall inside context windows", "true line numbers and byte offsets (arithmetic over the input)"]
 
 CORE = "grep_searcher::searcher::core::Core"
